@@ -1178,7 +1178,7 @@ VmTrap vm_core_execute(VmState *vm) {
             /* Range-check the 64-bit index before narrowing it: a cast to uint32_t
              * would map 2^32 + k to element k, and an out-of-range read must stop
              * the program instead of yielding void. */
-            int64_t idx64 = (idx_v.tag == TAG_INT ? idx_v.as.i64 : 0);
+            int64_t idx64 = (idx_v.tag == TAG_INT ? idx_v.as.i64 : idx_v.tag == TAG_ENUM ? (int64_t)idx_v.as.enum_val : 0);
             if (idx64 < 0 || idx64 >= (int64_t)arr.as.array->length) {
                 uint32_t alen = arr.as.array->length;
                 vm_release(&vm->heap, arr);
@@ -1202,7 +1202,7 @@ VmTrap vm_core_execute(VmState *vm) {
                 vm_release(&vm->heap, v);
                 return trap_error(vm, VM_ERR_TYPE_ERROR, "ARR_SET: not an array");
             }
-            int64_t idx64 = (idx_v.tag == TAG_INT ? idx_v.as.i64 : 0);
+            int64_t idx64 = (idx_v.tag == TAG_INT ? idx_v.as.i64 : idx_v.tag == TAG_ENUM ? (int64_t)idx_v.as.enum_val : 0);
             if (idx64 < 0 || idx64 >= (int64_t)arr.as.array->length) {
                 uint32_t alen = arr.as.array->length;
                 vm_release(&vm->heap, arr);
@@ -1252,7 +1252,7 @@ VmTrap vm_core_execute(VmState *vm) {
                 vm_release(&vm->heap, arr);
                 return trap_error(vm, VM_ERR_TYPE_ERROR, "ARR_REMOVE: not an array");
             }
-            int64_t idx64 = (idx_v.tag == TAG_INT ? idx_v.as.i64 : 0);
+            int64_t idx64 = (idx_v.tag == TAG_INT ? idx_v.as.i64 : idx_v.tag == TAG_ENUM ? (int64_t)idx_v.as.enum_val : 0);
             if (idx64 < 0 || idx64 >= (int64_t)arr.as.array->length) {
                 uint32_t alen = arr.as.array->length;
                 vm_release(&vm->heap, arr);
